@@ -1391,7 +1391,7 @@ def _io_method(interp, o: ExtObj, name: str, args: list, kwargs: dict) -> Any:
             return o.attrs["seekable"]
         if name in ("read", "peek", "read1", "readinto"):
             n = args[0] if args else kwargs.get("size", -1)
-            exact = name == "read" and (is_wrapper or root.attrs["buffered"])
+            exact = (name == "read" and (is_wrapper or root.attrs["buffered"])) or (name == "peek" and is_wrapper and root.attrs["buffered"])
             interp.emit("io", method=name, recv=o, n=n, exact=exact, wrapper=is_wrapper, raw_after_wrap=(not is_wrapper and root.attrs.get("wrapped", False)))
             root.attrs["reads"].append((name, n, "wrapper" if is_wrapper else "raw"))
             if n is None or (isinstance(n, int) and n < 0):
